@@ -1306,81 +1306,13 @@ func c12GenSched(r *verifh.Rng) []verifh.Section {
 // Observation: result tokens, rq=<requests in the order the loop received them; sorted when callbacks issue them>,
 // the k:v pairs handed to callbacks, held, has=<keys in data>, detached=<n>.
 
-var c12StackBuf = make([]byte, 1<<16)
-
-// c12Goroutines returns the dump of all goroutines, the caller's first.
-func c12Goroutines() []string {
-	for {
-		n := runtime.Stack(c12StackBuf, true)
-		if n < len(c12StackBuf) {
-			return strings.Split(strings.TrimSpace(string(c12StackBuf[:n])), "\n\n")
-		}
-		c12StackBuf = make([]byte, 2*len(c12StackBuf))
-	}
-}
-
-func c12GState(g string) string {
-	i, j := strings.IndexByte(g, '['), strings.IndexByte(g, ']')
-	if i < 0 || j < i {
-		return "running"
-	}
-	st := g[i+1 : j]
-	if k := strings.IndexByte(st, ','); k >= 0 {
-		st = st[:k]
-	}
-	return st
-}
-
-func c12Busy(g string) bool {
-	switch c12GState(g) {
-	case "running", "runnable", "preempted", "copystack", "waiting", "dead", "idle":
-		return true
-	case "syscall":
-		return !strings.Contains(g, "os/signal.")
-	}
-	return strings.HasPrefix(c12GState(g), "GC") // GC assist wait …: goes on by itself
-}
-
-// c12Quiesce returns once every goroutine but the caller is blocked.
-func c12Quiesce() bool {
-	deadline := time.Now().Add(10 * time.Second)
-	for i := 0; ; i++ {
-		runtime.Gosched()
-		busy := false
-		for _, g := range c12Goroutines()[1:] {
-			if c12Busy(g) {
-				busy = true
-				break
-			}
-		}
-		if !busy {
-			return true
-		}
-		if i > 100 {
-			time.Sleep(20 * time.Microsecond)
-		}
-		if i%64 == 63 && time.Now().After(deadline) {
-			return false
-		}
-	}
-}
-
-// c12InWheelAPI counts the goroutines blocked inside a public method of the wheel.
-func c12InWheelAPI() int {
-	n := 0
-	for _, g := range c12Goroutines()[1:] {
-		if c12GState(g) != "select" {
-			continue
-		}
-		for _, m := range []string{"SetTimer", "MoveTimer", "RemoveTimer", "Drain"} {
-			if strings.Contains(g, "collection.(*TimingWheel)."+m+"(") {
-				n++
-				break
-			}
-		}
-	}
-	return n
-}
+// the goroutine-dump helpers and the request loop live in zz_verif_c12_sched.go (shared with core/stores/cache)
+var (
+	c12Goroutines = VerifC12Goroutines
+	c12GState     = VerifC12GState
+	c12Quiesce    = VerifC12Quiesce
+	c12InWheelAPI = VerifC12InWheelAPI
+)
 
 type c12HoldSink struct {
 	mu      sync.Mutex
@@ -1442,43 +1374,11 @@ type c12Sched struct {
 
 // poll receives one pending request, by priority, and handles it the way run does.
 func (s *c12Sched) poll() bool {
-	for _, p := range s.pri {
-		switch p {
-		case "set":
-			select {
-			case task := <-s.tw.setChannel:
-				s.rq = append(s.rq, fmt.Sprintf("set:%v:%v:%d", task.key, task.value, int64(task.delay)))
-				s.tw.setTask(&task)
-				return true
-			default:
-			}
-		case "move":
-			select {
-			case task := <-s.tw.moveChannel:
-				s.rq = append(s.rq, fmt.Sprintf("move:%v:%d", task.key, int64(task.delay)))
-				s.tw.moveTask(task)
-				return true
-			default:
-			}
-		case "remove":
-			select {
-			case key := <-s.tw.removeChannel:
-				s.rq = append(s.rq, fmt.Sprintf("remove:%v", key))
-				s.tw.removeTask(key)
-				return true
-			default:
-			}
-		case "drain":
-			select {
-			case fn := <-s.tw.drainChannel:
-				s.rq = append(s.rq, "drain")
-				s.tw.drainAll(fn)
-				return true
-			default:
-			}
-		}
+	tok, ok := VerifC12Poll(s.tw, s.pri, nil)
+	if ok {
+		s.rq = append(s.rq, tok)
 	}
-	return false
+	return ok
 }
 
 // serve is the run loop for one operation of the client: `returned` says whether the client's call is over.
@@ -1530,13 +1430,7 @@ func (s *c12Sched) call(f func()) (note, outcome string) {
 	return note, outcome
 }
 
-func c12SchedWheel(orig *TimingWheel, exec Execute) *TimingWheel {
-	orig.Stop()
-	tw := *orig // every field as the constructor set it …
-	tw.stopChannel = make(chan struct{}) // … but a stop channel that is open, and no run loop
-	tw.execute = exec
-	return &tw
-}
+var c12SchedWheel = VerifC12SchedWheel
 
 type c12TypedErr struct{}
 
